@@ -12,6 +12,9 @@ import PegVerif.Model.SwitchSafe
 import PegVerif.Proofs.SwitchSafeDef
 import PegVerif.Proofs.InlineSwitchSafeDef
 import PegVerif.Proofs.NoastSwitchSafeDef
+import PegVerif.Proofs.InlineNoastSafeDef
+import PegVerif.Proofs.InlineLemmas
+import PegVerif.Proofs.LinkNoast
 /-
   `pegmodel emit`: one JSON request per line `{"id","tree":[…],"opts":"isn"-subset}` → one JSON
   line `{"id","rules":[{"nil":bool,"code":[…]}],"error"?}` with the IR the *model* generator
@@ -83,8 +86,17 @@ def emitOne (line : String) : String :=
                     -- the -noast fragment (no state-change statements, captures named PegText …) on the ORIGINAL grammar:
                     -- where that fails the -noast theorems do not apply with or without -switch
                     ("grammarOKN", Json.bool (GrammarOKN (Kall L.G) L.G))]
+                 else if !o.ast && o.inline then [("inlineNoastSwitchSafe", Json.bool (inlineNoastSwitchSafe L.G G')),
+                    ("grammarOKN", Json.bool (GrammarOKN (Kall L.G) L.G))]
                  else []))
-             else Json.mkObj [])
+             -- without -switch: the extra hypothesis of the option set's own theorem (C02_inline_same_as_default,
+             -- C07_generated_parser, C07_inline_generated_parser)
+             else Json.mkObj (
+               if o.ast && o.inline && L.G.rules.length ≤ 40 then [("grammarOKI", Json.bool (GrammarOKI L.G))]
+               else if !o.ast && !o.inline then [("grammarOKN", Json.bool (GrammarOKN (Kall L.G) L.G))]
+               else if !o.ast && o.inline then [("inlineNoastSafe", Json.bool (inlineNoastSafe L.G)),
+                    ("grammarOKN", Json.bool (GrammarOKN (Kall L.G) L.G))]
+               else []))
           pure (Json.mkObj [("id", id), ("rules", programJson P), ("nilCase", nilCase),
             ("unusedLabel", unusedLabel), ("header", hj), ("hyps", hyps),
             ("ruleNames", Json.arr (L.G.rules.map (fun r => Json.str r.name)).toArray)])
